@@ -513,6 +513,84 @@ theorem collision_refused_add_if_new (d : Disk) (hfs : DirsClosed d) (n : Name) 
   · simp [hv]
 
 
+/-! ## 4b. collision refusal over the SET of packed names (no ordering, any siblings) -/
+
+/-- `_check_packed_conflict`, the descendant half, over the SET of packed names: it fires exactly when SOME
+packed name starts with `name + "/"` — wherever that name sits among the others, whatever else is packed
+(siblings such as `topic-old`, `topic.bak`, `topic+1` sort between `topic` and `topic/x` because
+`'-' '.' '+' ',' … < '/'`; they neither hide a descendant nor count as one) -/
+theorem packed_descendant_conflict_iff (d : Disk) (name : Name) (hne : name ≠ []) :
+    d.packed.keys.any (fun k => decide (name ∈ ancestors k)) = true ↔ ∃ r ∈ d.packed.keys, (name ++ [47]) <+: r := by
+  rw [List.any_eq_true]
+  constructor
+  · rintro ⟨r, hr, h⟩
+    exact ⟨r, hr, ((mem_ancestors_iff r name).mp (by simpa using h)).2⟩
+  · rintro ⟨r, hr, h⟩
+    exact ⟨r, hr, by simpa using (mem_ancestors_iff r name).mpr ⟨hne, h⟩⟩
+
+theorem packed_conflict_of_descendant (d : Disk) (name : Name) (hne : name ≠ [])
+    (h : ∃ r ∈ d.packed.keys, (name ++ [47]) <+: r) : d.packedConflict name = true := by
+  unfold Disk.packedConflict
+  rw [(packed_descendant_conflict_iff d name hne).mpr h]
+  simp
+
+/-- … and the ancestor half: some proper leading part `p` of `name` (`p + "/"` a prefix of `name`) is packed -/
+theorem packed_conflict_of_ancestor (d : Disk) (name p : Name) (hp : p ≠ []) (hpre : (p ++ [47]) <+: name)
+    (h : (d.packed.get p).isSome = true) : d.packedConflict name = true := by
+  unfold Disk.packedConflict
+  have : (ancestors name).any (fun q => (d.packed.get q).isSome) = true :=
+    List.any_eq_true.mpr ⟨p, (mem_ancestors_iff name p).mpr ⟨hp, hpre⟩, h⟩
+  rw [this]; rfl
+
+/-- **Collision refusal over the set of packed names** — every writer, both directions, no ordering
+involved: if some packed name lies below `name` (`name + "/"` is a prefix of it) or some packed name is a
+leading part of `name`, then `set_symbolic_ref(name, …)` raises `OSError`; `set_if_equals` (hence
+`__setitem__`, and a write through HEAD or any symref that resolves to `name`) raises whenever it would
+write; `add_if_new` does not create `name`; and no ref changes. -/
+theorem collision_refused_over_packed_set (d : Disk) (hwf : d.WF) (hfs : DirsClosed d) (name : Name)
+    (hcoll : (∃ r ∈ d.packed.keys, (name ++ [47]) <+: r) ∨
+             (∃ p, p ≠ [] ∧ (p ++ [47]) <+: name ∧ (d.packed.get p).isSome = true))
+    (hn : checkRefname name = true) :
+    (∀ t, checkRefname t = true →
+      (d.setSymbolicRef name t).1 = .error .os ∧ (d.setSymbolicRef name t).2.readRef = d.readRef) ∧
+    (∀ n old new, checkRefname n = true → validRefValue new = true → realname d.readRef n = name →
+      casOk (d.readRef name) old = true → d.readRef name ≠ some new →
+      (d.setIfEquals n old new).1 = .error .os ∧ (d.setIfEquals n old new).2.readRef = d.readRef) ∧
+    (∀ n v names, follow d.readRef n = .ok (names, none) → names.getLast? = some name →
+      (d.addIfNew n v).1 ≠ .ok true ∧ (d.addIfNew n v).2.readRef = d.readRef) := by
+  have hne : name ≠ [] := by intro h; subst h; revert hn; decide
+  have hc : Collides d name := by
+    rcases hcoll with ⟨r, hr, hpre⟩ | ⟨p, hp, hpre, hsome⟩
+    · exact Or.inr (Or.inl ⟨r, hr, (mem_ancestors_iff r name).mpr ⟨hne, hpre⟩⟩)
+    · exact Or.inl ⟨p, (mem_ancestors_iff name p).mpr ⟨hp, hpre⟩, Or.inr hsome⟩
+  refine ⟨?_, ?_, ?_⟩
+  · intro t ht
+    exact collision_refused_set_symbolic_ref d hfs name t hn ht hc
+  · intro n old new hnn hv hreal hcas hdiff
+    exact collision_refused_set_if_equals d hwf hfs n old new hnn hv (by rw [hreal]; exact hc)
+      (by rw [hreal]; exact hcas) (by rw [hreal]; exact hdiff)
+  · intro n v names hf hl
+    exact collision_refused_add_if_new d hfs n v names name hf hl hc
+
+set_option maxRecDepth 16000 in
+/-- the seeded-change shape, concretely: with `topic-old`, `topic.bak`, `topic+1` packed next to
+`topic/x/y` — in any position — writing `refs/heads/topic` is refused by all writers, directly and through
+HEAD; with only the siblings packed it goes through -/
+example :
+    let sibs : Map := [(b!"refs/heads/topic-old", shaA), (b!"refs/heads/topic.bak", shaA), (b!"refs/heads/topic+1", shaA),
+                       (b!"refs/heads/topic0", shaA), (b!"refs/heads/topicz", shaA)]
+    let desc : Bytes × Bytes := (b!"refs/heads/topic/x/y", shaB)
+    let hd : Map := [(b!"HEAD", b!"ref: refs/heads/topic")]
+    let t := b!"refs/heads/topic"
+    (∀ pk ∈ [desc :: sibs, sibs ++ [desc], sibs.take 2 ++ desc :: sibs.drop 2],
+      let d : Disk := { emptyDisk with files := hd, packed := pk }
+      (d.setIfEquals t none shaC).1 = .error .os ∧ (d.setIfEquals b!"HEAD" none shaC).1 = .error .os ∧
+      (d.addIfNew t shaC).1 = .error .os ∧ (d.setSymbolicRef t b!"refs/heads/m").1 = .error .os) ∧
+    (let d : Disk := { emptyDisk with files := hd, packed := sibs }
+     (d.setIfEquals b!"HEAD" none shaC).1 = .ok true ∧ (d.addIfNew t shaC).1 = .ok true) := by
+  decide
+
+
 /-! ## 5. DictRefsContainer ≡ the map spec (when not writing through a symref) -/
 
 theorem dict_set_if_equals_spec (m : Map) (hwf : DictWF m) (name : Name) (old : Option Val) (new : Val)
